@@ -318,6 +318,8 @@ func famFault(tr *Trace, scratch string, seed int64, tier string, workers int, r
 				return c.YAML(root)
 			}},
 			{"rpm_epoch", func(c *Cfg, y string) string { return y + "epoch: \"abc\"\n" }},
+			{"rpm_epoch_range", func(c *Cfg, y string) string { return y + "epoch: \"4294967296\"\n" }},
+			{"rpm_epoch_negative", func(c *Cfg, y string) string { return y + "epoch: \"-1\"\n" }},
 			{"platform", func(c *Cfg, y string) string {
 				return strings.Replace(y, "platform: \"linux\"", "platform: \"darwin\"", 1)
 			}},
